@@ -30,13 +30,13 @@ RULE = (
 )
 TOLERANCES = {"additivity_rel": 1e-10, "readback_rel": 1e-10, "unchanged_rel": 1e-12, "massfrac_sum_abs": 1e-10, "inverse_rel": 1e-12, "spec_volume_rel": 1e-9,
               "trace_abs": 1e-40}
-FLOORS = {"quick": {"block.with-negative-volume-child": 6, "block.without-derived-shape": 8, "questions-before-audit": 800, "question.getArea(cold=True)": 120, "ledger.block": 3000, "ledger.assembly": 300, "ledger.core": 40, "ledger.component": 2500, "edit.block-symmetry-factor-3": 18,
+FLOORS = {"quick": {"setMassFracs.named-take-everything": 15, "block.with-negative-volume-child": 6, "block.without-derived-shape": 8, "questions-before-audit": 800, "question.getArea(cold=True)": 120, "ledger.block": 3000, "ledger.assembly": 300, "ledger.core": 40, "ledger.component": 2500, "edit.block-symmetry-factor-3": 18,
                     "edit.block-symmetry-factor-2": 12, "ledger.component-in-block-of-factor-3": 18, "ledger.component-in-block-of-factor-2": 12,
                     "edit.cartesian-block-symmetry-factor-4": 6, "edit.cartesian-block-symmetry-factor-2": 6, "symmetry-factor.3": 45, "symmetry-factor.2": 50,
                     "symmetry-factor.cartesian-4": 12, "symmetry-factor.cartesian-2": 12, "volume-from-spec": 900, "edge-assemblies.changed": 3,
                     "readback": 2000, "readback.mass-vector": 250, "others-unchanged": 1000, "absent-nuclide.composite": 120, "absent-nuclide.component": 70,
                     "massfrac": 300, "getMasses": 6000, "getMassFrac": 3000, "densityTools": 300, "selection": 1000},
-          "thorough": {"block.with-negative-volume-child": 200, "block.without-derived-shape": 130, "questions-before-audit": 12000, "question.getArea(cold=True)": 2000, "ledger.block": 60000, "ledger.assembly": 6000, "ledger.core": 800, "ledger.component": 30000, "edit.block-symmetry-factor-3": 350,
+          "thorough": {"setMassFracs.named-take-everything": 400, "block.with-negative-volume-child": 200, "block.without-derived-shape": 130, "questions-before-audit": 12000, "question.getArea(cold=True)": 2000, "ledger.block": 60000, "ledger.assembly": 6000, "ledger.core": 800, "ledger.component": 30000, "edit.block-symmetry-factor-3": 350,
                        "edit.block-symmetry-factor-2": 60, "ledger.component-in-block-of-factor-3": 350, "ledger.component-in-block-of-factor-2": 60,
                        "edit.cartesian-block-symmetry-factor-4": 60, "edit.cartesian-block-symmetry-factor-2": 60, "symmetry-factor.3": 800, "symmetry-factor.2": 250,
                        "symmetry-factor.cartesian-4": 120, "symmetry-factor.cartesian-2": 120, "volume-from-spec": 10000, "edge-assemblies.changed": 15,
@@ -494,6 +494,9 @@ def do_edit(rec, rng, obj, level, w):
             tot = rng.uniform(.05, .8 if len(present) > len(sel) else 1.0)
             if len(present) == len(sel):
                 tot = 1.0
+            elif rng.random() < .12:
+                tot = 1.0  # the named nuclides take everything: the unnamed ones must read zero afterwards (nothing is left to share)
+                rec.hit("setMassFracs.named-take-everything")
             cuts = sorted(rng.random() for _ in range(len(sel) - 1))
             parts = [b - a for a, b in zip([0.0] + cuts, cuts + [1.0])]
             fr = {n: tot * p for n, p in zip(sel, parts)}
